@@ -425,13 +425,19 @@ func runC18(c *vf.Ctx) {
 	if SearchMode() {
 		n *= 4
 	}
-	c.Parallel(0, true, func(w int, r *vf.Rand, d *vf.Driver) {
+	c.Parallel(16, true, func(w int, r *vf.Rand, d *vf.Driver) {
 		if w == 0 {
 			for _, cs := range cornersC18() {
 				execC18(c, d, cs)
 			}
 			for _, cs := range cornersC18Scalar() {
 				execC18(c, d, cs)
+			}
+		}
+		// boundary scalar sweep through normalizeScalar (all byte forms), spread over the workers
+		for i, k := range k1ScalarSweep(SearchMode()) {
+			if i%16 == w {
+				execC18(c, d, c18Case{Op: "sc.normalize", Bytes: k})
 			}
 		}
 		for i := 0; i < n/16; i++ {
